@@ -68,6 +68,20 @@ class SyncProp(Prop):
         if not via_cli and len(cfg["kinds"][cfg["truth"]]["files"]) > 1 and r.random() < 0.5:
             cfg["truth_last"] = True
         run.dist["truth_listed_last"][bool(cfg.get("truth_last"))] += 1
+        # a hand-written truth function DOES something: a body that ends by returning its parameters (what is written to
+        # a function target must return the same expression, not one rewritten for another kind)
+        cfg["truth_return"] = None
+        # (not with an argparse target: a returned expression cannot be carried by the argparse kind - the recorded
+        # finding about the argparse return entry, C03/C04)
+        if cfg["truth"] == "function" and cfg["ir"].get("returns") is None and "argparse_function" not in cfg["kinds"] and r.random() < 0.7:
+            tkd = cfg["kinds"]["function"]
+            tf = next(f for f in tkd["files"] if f["prestate"] == "truth")
+            names = [n for n, _ in cfg["ir"]["params"]]
+            expr = names[0] if len(names) == 1 or r.random() < 0.5 else "(%s)" % ", ".join(names[:2])
+            ind = " " * (8 if tkd["method"] and "." in tkd["name"] else 4)
+            tf["content"] = tf["content"].rstrip("\n") + "\n%stotal = %s\n%sreturn %s\n" % (ind, names[0], ind, expr)
+            cfg["truth_return"] = expr
+        run.dist["truth_function_returns_parameters"][cfg["truth_return"] is not None] += 1
         return {"cfg": cfg, "via_cli": via_cli}
 
     def nontrivial(self, c):
@@ -200,6 +214,12 @@ class C09(SyncProp):
                     d = syncbase.agrees(truth_ir, got)
                     if d:
                         fails.append(dict(tag, what="target disagrees with the truth after sync", diffs=d))
+                    # a function target written by this sync from a function truth that returns its parameters: the
+                    # returned expression is the truth's
+                    if cfg.get("truth_return") and k == "function" and f["prestate"] in ("missing", "empty", "absent") and not d:
+                        rd = ((got.get("returns") or {}).get("return_type") or {}).get("default")
+                        if rd is not None and str(rd).strip("`") != cfg["truth_return"]:
+                            fails.append(dict(tag, what="function target written by sync returns another expression than the truth", want=cfg["truth_return"], got=str(rd)))
         return fails
 
     def classify(self, c, fl):
